@@ -197,7 +197,7 @@ def soup(draw, max_len=24):
         elif op == "metric":
             em.emit("metric", draw(idx), None)
         elif op == "partition":
-            em.emit("partition", draw(st.integers(1, 3)))
+            em.emit("partition", draw(st.integers(1, 3)), draw(st.sampled_from([False, False, True])))
         elif op == "block" and em.n["B"] > 0:
             em.emit("block", draw(idx), draw(idx), draw(st.integers(0, 5)))
         elif op == "new_point":
